@@ -279,15 +279,35 @@ protected:
       core::BufferView view(localBuffer.data() + offset,
                             localBuffer.size() - offset);
       std::size_t consumed = 0;
-      auto frame = WebSocketFrame::parse(view, consumed);
+      WebSocketFrame frame;
+      auto status = WebSocketFrame::parse(view, consumed, frame, _maxFrameSize);
 
-      if (!frame)
+      if (status == WebSocketFrame::ParseStatus::Incomplete)
       {
         break;
       }
+      if (status != WebSocketFrame::ParseStatus::Complete)
+      {
+        // The bytes can never become an acceptable frame (malformed control
+        // frame, impossible length, or a frame declaring more than the
+        // configured maximum). Waiting for "the rest" would buffer whatever the
+        // peer sends without bound: fail the connection instead (RFC 6455 §7.1.7).
+        const bool tooBig = (status == WebSocketFrame::ParseStatus::TooBig);
+        sendClose(sid, tooBig ? 1009 : 1002, tooBig ? "Message Too Big" : "Protocol error");
+        if (_onError)
+        {
+          _onError(sid, tooBig ? "Frame exceeded maxFrameSize" : "Malformed WebSocket frame");
+        }
+        {
+          std::lock_guard<std::mutex> lock(_wsMutex);
+          _sessions.erase(sid);
+        }
+        closeSession(sid);
+        return;
+      }
 
       offset += consumed;
-      handleFrame(sid, *frame);
+      handleFrame(sid, frame);
     }
 
     // Put unconsumed remainder back
